@@ -32,7 +32,7 @@ func init() {
 		},
 		Real:     []string{"future package (all combinators used by the generator)", "fp.Future methods", "fp.Promise", "iterator.FoldFuture / iterator.Fold", "internal/atomic"},
 		Stub:     []string{"Go scheduler at atomic steps", "goroutine creation of goExecutor", "user executors", "user functions (pure, instrumented)", "source completion order"},
-		Quick:    Budget{Runs: 300000, Wall: 50 * time.Second},
+		Quick:    Budget{Runs: 600000, Wall: 50 * time.Second},
 		Thorough: Budget{Runs: 30000000, Wall: 25 * time.Minute},
 		Exec:     execC06,
 	})
